@@ -103,7 +103,7 @@ func GoAny(v *tbin.Val, strAsBinary, byteAsInt8 bool) interface{} {
 		case v.KT == tbin.BYTE || v.KT == tbin.I16 || v.KT == tbin.I32 || v.KT == tbin.I64:
 			m := map[int]interface{}{}
 			for i := range v.L {
-				m[int(v.K[i].I)] = GoAny(v.L[i], strAsBinary, byteAsInt8)
+				m[intKey(v.K[i])] = GoAny(v.L[i], strAsBinary, byteAsInt8)
 			}
 			return m
 		default:
@@ -167,7 +167,7 @@ func GoWithShape(v *tbin.Val, s *tbin.Shape, byteAsUint8, useFieldName bool) int
 		case v.KT == tbin.BYTE || v.KT == tbin.I16 || v.KT == tbin.I32 || v.KT == tbin.I64:
 			m := map[int]interface{}{}
 			for i := range v.L {
-				m[int(v.K[i].I)] = GoWithShape(v.L[i], s.Elem, byteAsUint8, useFieldName)
+				m[intKey(v.K[i])] = GoWithShape(v.L[i], s.Elem, byteAsUint8, useFieldName)
 			}
 			return m
 		default:
@@ -459,4 +459,12 @@ func GoAnyW(v *tbin.Val, strAsBinary, byteAsInt8 bool) interface{} {
 		}
 	}
 	return GoAny(v, strAsBinary, byteAsInt8)
+}
+
+// intKey is the Go int the library presents for an integer map key (BYTE is uint8 in dynamicgo).
+func intKey(k *tbin.Val) int {
+	if k.T == tbin.BYTE {
+		return int(uint8(k.I))
+	}
+	return int(k.I)
 }
